@@ -36,12 +36,25 @@ def catalogue():
     cat.append(dict(kind="unknown-method-typed", nested=True))
     for d in (0, 1, 3):
         cat.append(dict(kind="result-unsendable", depth=d))
+    # foolscap's own exception classes raised by the callee's application code, directly and relayed through a middle party
+    for i, c in enumerate(OWN_NAMES):
+        cat.append(dict(kind="raise", cls=c, msg=MSGS[(2 * i + 1) % len(MSGS)]))
+        cat.append(dict(kind="relay", cls=c, msg=MSGS[(2 * i + 4) % len(MSGS)]))
+    for i, c in enumerate(("ValueError", "MyDeepError", "CafeError", "Rejected@beta")):
+        cat.append(dict(kind="relay", cls=c, msg=MSGS[(5 * i + 2) % len(MSGS)]))
+    # arguments whose resolution fails asynchronously on the callee: a third-party reference (gift) that the callee's Tub
+    # refuses, or whose home Tub it cannot reach; at nesting depth d
+    for mode in ("refuse", "unresolvable"):
+        for d in (0, 1, 3):
+            cat.append(dict(kind="gift", mode=mode, depth=d))
     # exception classes that share their bare name with a class of another module
     for i, h in enumerate(sorted(HOMONYM_NAMES)):
         cat.append(dict(kind="raise", cls=h, msg=MSGS[(3 * i + 1) % len(MSGS)]))
     return cat
 
 
+OWN_NAMES = ["foolscap:RemoteException", "foolscap:Violation", "foolscap:BananaError", "foolscap:DeadReferenceError",
+             "foolscap:NegotiationError"]
 HOMONYM_NAMES = ["Rejected@alpha", "Rejected@beta", "Rejected@beta.sub", "TimeoutError@builtins", "TimeoutError@twisted",
                  "ConnectionRefusedError@builtins", "ConnectionRefusedError@twisted", "ValueError@alpha", "ValueError"]
 NONOK = ("illtyped", "illtyped-deep", "unsendable", "slicer-raises", "surrogate")
@@ -104,7 +117,10 @@ def run(ctx):
                 "violating the callee's or the caller's schema, unsendable result at depth d; SEVERAL faults in one call: every "
                 "pair of argument positions x every pair of {callee-schema-only, caller-unserializable} fault kinds x known/"
                 "unknown method; exception classes sharing a bare name across modules, every ordered pair, within and across "
-                "batches; every batch is followed by calls whose arguments share containers), both settings of "
+                "batches; foolscap's own exception classes (RemoteException, Violation, BananaError, DeadReferenceError, "
+                "NegotiationError) raised by the callee and relayed A->B->C through a middle party that exposes or hides types; "
+                "third-party references (gifts) the callee's Tub refuses or cannot resolve, at depth 0/1/3 and every position; "
+                "every batch is followed by calls whose arguments share containers), both settings of "
                 "unsafeTracebacks and expose-remote-exception-types; non-trivial = distinct batch in which every Deferred "
                 "fired and the faulty call really failed (or, for mixed keys, really round-tripped)")
     ctx.assumptions = [
@@ -117,6 +133,8 @@ def run(ctx):
         "the counting receiver of lib/Send.v (cstate: OPEN numbers, discard, left-behind unslicer) is tied to Banana.handleData / "
         "call.py only by translated shape facts (counter advanced for rejected OPENs; Call/Answer/ErrorUnslicer.reportViolation "
         "return the failure) and by the direct oracle (real counters of both ends compared after every batch)",
+        "the inbound delivery queue model (drain) and the wrap model (deliver/wrap) are tied to Broker.doNextCall and "
+        "call.wrap_remote_failure by translated shape facts and by the direct oracle, not by a vm_compute correspondence",
         "utf8_decode_ignore is exact only on prefixes of well-formed UTF-8 (proved to be the only inputs truncate gives it)",
         "Tub.setOption('expose-remote-exception-types') -> Broker._expose_remote_exception_types plumbing is checked on a "
         "real Tub/Broker once per run, the batches set the Broker attributes directly",
@@ -213,15 +231,24 @@ def judge_faulty(impl, spec, d, opts):
         return "a remote exception arrived as a local %s: %s" % (d["type"], d["value"][:200])
     if not opts["unsafe"] and d["traceback"] != "Traceback unavailable\n":
         return "unsafeTracebacks is off but a traceback was sent"
-    if k in REMOTE_VIOLATION:
+    if k in REMOTE_VIOLATION or (k == "gift" and spec["mode"] == "refuse"):
         return None if d["type"] == "foolscap.tokens.Violation" else "expected a remote Violation, got %s" % d["type"]
+    if k == "gift":
+        return None          # the callee could not resolve the reference: any remote exception
+    if k == "relay" and not opts.get("middle_expose", True):
+        # the middle party hides exception types: what it raises towards us is its own RemoteException
+        from foolscap.tokens import RemoteException
+        want = [qual(c) for c in inspect.getmro(RemoteException)]
+        if d["type"] != want[0] or d["parents"] != want:
+            return "relayed through a party that hides types: expected %s, got %s %r" % (want[0], d["type"], d["parents"])
+        return None
     if k == "unknown-method":
         return None if d["type"] in ("builtins.AttributeError", "builtins.NameError") else "unknown method reported as %s" % d["type"]
     if k == "wrong-arity":
         return None if d["type"] == "builtins.TypeError" else "wrong arity reported as %s" % d["type"]
-    if k in ("raise", "raise-noargs"):
+    if k in ("raise", "raise-noargs", "relay"):
         cls = impl.EXC_CLASSES[spec["cls"]]
-        if d["type"] == "foolscap.tokens.Violation":
+        if d["type"] == "foolscap.tokens.Violation" and qual(cls) != "foolscap.tokens.Violation":
             return "the remote %s was reported as a Violation: %s" % (spec["cls"], d["value"][:200])
         if not trunc_expect(qual(cls), 200)(d["type"]):
             return "type name %r does not identify %s" % (d["type"], qual(cls))
@@ -237,7 +264,7 @@ def judge_faulty(impl, spec, d, opts):
         f = d["failure"]
         if len(qual(cls).encode()) <= 200 and (f.check(cls) is None or f.check(LookupError if issubclass(cls, LookupError) else Exception) is None):
             return "Failure.check() does not recognise %s" % qual(cls)
-        text = str(cls(impl.message(spec["msg"]))) if k == "raise" else str(cls())
+        text = str(cls(impl.message(spec["msg"]))) if k in ("raise", "relay") else str(cls())
         if not trunc_expect(text, 1000)(d["value"]):
             return "value (%d bytes) is not the message / a maximal prefix of it + '..' (message has %d bytes): %r" % (
                 len(d["value"].encode()), len(text.encode()), d["value"][-30:])
@@ -300,7 +327,12 @@ def judge_batch(ctx, impl, specs, opts, r, sigsuffix=""):
             want_exec.append(runs[s["kind"]])
         elif s["kind"] == "multi" and isinstance(multi_expect(s), tuple):
             want_exec.append("echo3" if s["target"] == "plain" else "multi")
+        elif s["kind"] == "relay":
+            want_exec.append("relay")
     want_exec += ["add", "echo"]
+    want_far = ["boom" for s in specs if s["kind"] == "relay"]
+    if r["far_executed"] != want_far and not any(r["disconnected"]):
+        bad.append(("oracle/wrong-calls-executed", "the third party ran %s, the batch relays %s" % (r["far_executed"], want_far)))
     if r["executed"] != want_exec and not any(r["disconnected"]):
         bad.append(("oracle/wrong-calls-executed", "the callee ran %s, the batch asks for %s (a call whose arguments were aborted or "
                     "rejected must not run, every other call must run once, in order)" % (r["executed"], want_exec)))
@@ -316,6 +348,11 @@ def judge_batch(ctx, impl, specs, opts, r, sigsuffix=""):
 
 
 def run_one(ctx, impl, specs, opts, tag, sigsuffix=""):
+    gifts = [s for s in specs if s["kind"] == "gift"]
+    if gifts:       # one Tub on the callee per batch: every gift of the batch fails the same way
+        mode = gifts[0]["mode"]
+        specs[:] = [dict(s, mode=mode) if s["kind"] == "gift" else s for s in specs]
+        opts = dict(opts, gift_mode=mode)
     with impl.quiet():
         r = impl.run_batch(specs, opts)
     fine = judge_batch(ctx, impl, specs, opts, r, sigsuffix)
@@ -333,10 +370,13 @@ def run_one(ctx, impl, specs, opts, tag, sigsuffix=""):
 
 # ------------------------------------------------------------------------------------------------ parts
 def corpus(ctx, impl):
+    """fixed witnesses, run first: repaired defects and one batch (or short history) per family of seeded changes, so that
+    their detection never depends on the generated stream.  File = {"specs":[..], "opts":[..]} or {"batches":[{"specs","opts"}..]}"""
     for p in sorted(glob.glob(os.path.join(common.VERIF, "corpus", "C10", "*.json"))):
         c = json.load(open(p))
-        for opts in c.get("opts", [dict(unsafe=True, expose=True)]):
-            run_one(ctx, impl, c["specs"], opts, "corpus:" + os.path.basename(p))
+        for b in c.get("batches", [c] if "specs" in c else []):
+            for opts in b.get("opts", [dict(unsafe=True, expose=True)]):
+                run_one(ctx, impl, [dict(x) for x in b["specs"]], dict(opts), "corpus:" + os.path.basename(p))
         ctx.hist("corpus", os.path.basename(p))
 
 
@@ -374,7 +414,7 @@ def sweep(ctx, impl):
                 specs[pos] = f
                 # after every per-call fault: calls whose arguments share a container, in the same batch and later
                 specs.append(dict(kind="shared", variant=impl.SHARED_VARIANTS[(ci + pos) % 4]))
-                opts = dict(opts, later_shared=impl.SHARED_VARIANTS[(ci + pos + 1 + oi) % 4])
+                opts = dict(opts, later_shared=impl.SHARED_VARIANTS[(ci + pos + 1 + oi) % 4], middle_expose=bool((ci + pos) % 2))
                 r = run_one(ctx, impl, specs, opts, "sweep")
                 kept.append((specs, opts, r))
                 n += 1
@@ -421,7 +461,7 @@ def sweep(ctx, impl):
                 specs.append(dict(kind="ok", v=ctx.rng.randrange(-5, 10 ** 6)) if u < 0.35 else
                              dict(kind="ok-add", v=ctx.rng.randrange(0, 2 ** 40)) if u < 0.7 else
                              dict(kind="shared", variant=ctx.rng.choice(impl.SHARED_VARIANTS)))
-        opts = dict(ctx.rng.choice(allopts), later_shared=ctx.rng.choice(impl.SHARED_VARIANTS))
+        opts = dict(ctx.rng.choice(allopts), later_shared=ctx.rng.choice(impl.SHARED_VARIANTS), middle_expose=ctx.rng.random() < 0.5)
         r = run_one(ctx, impl, specs, opts, "random")
         kept.append((specs, opts, r))
         ctx.hist("faults_per_batch", sum(1 for s in specs if s["kind"] not in ("ok", "ok-add", "shared")
@@ -464,6 +504,8 @@ def tree_of(impl, v, seen):
     this call's scope -- a second occurrence is sent as a `reference` sequence"""
     if isinstance(v, impl.Unsendable):
         return "Unsendable"
+    if v == "@gift":
+        return "Sub [Tok 0; Tok 0; Tok 0]"      # their-reference, giftID, url
     if isinstance(v, impl.RaisingSlicer):
         return "Sub " + coq_list(["Tok 0"] * (1 + v.n) + ["RaiseV"])
     if isinstance(v, bool):
@@ -504,6 +546,10 @@ def call_tree(impl, spec):
             args, kw = [a[0], a[1]], {"c": a[2]}
         else:
             args, kw = [a[0]], {"b": a[1], "c": a[2]}
+    elif k == "relay":
+        args = [spec["cls"], spec["msg"][0], spec["msg"][1]]
+    elif k == "gift":
+        args = [impl.nest(spec["depth"], "@gift")]
     elif k == "shared":
         args = [impl.shared_value(spec["variant"])]
     elif k == "ok-add":
@@ -545,6 +591,8 @@ def corr_send(ctx, impl, batches):
     """caller side of every batch: the OPEN/CLOSE/ABORT skeleton (with numbers) and the count of primitive tokens written by
     the real Banana.produce vs `run` of lib/Send.v on the trees of the CallSlicers; and which objectSentDeferreds failed"""
     later_add = call_tree(impl, dict(kind="ok-add", v=40))
+    # with a gift in the batch the callee calls back (decgift) and the caller writes answers of its own: oracle only
+    batches = [b for b in batches if not any(s["kind"] == "gift" for s in b[0])]
     shard = 150
     nbad = 0
     total = 0
